@@ -40,7 +40,9 @@ claim('C12', 'other',
       '"no quantisation" --, bar/beat inverses, next_bar) is one z3 validity query over the terms computed by '
       'the real TempoClock methods from an ARBITRARY invariant-satisfying state (all fields, logical and physical time '
       'symbolic reals); the setters are proved to re-establish the invariant (already inside the \'meter\' notification '
-      'a dependant receives), so the laws hold after histories of any length. quant and beats_per_bar in the floor-based laws range over a stated grid.',
+      'a dependant receives), so the laws hold after histories of any length. quant and beats_per_bar in the '
+      'floor-based laws range over a stated grid. Scheduler side (NRT, C05\'s scenario): a routine pending on the clock '
+      'while another routine changes the tempo still wakes at its beat.',
       _TB + '; main.elapsed_time and the current thread are stubs returning arbitrary reals (physical >= logical).',
       'symbolic execution of the real TempoClock methods (z3 Real terms) + SMT validity per law (NRA, ToInt witnesses)',
       'DESIGN.md 3/C12')
@@ -62,7 +64,8 @@ claim('C19', 'other',
       'number/curvature with wrap indexing; every shape name against an independent server table), the documented '
       'breakpoints of the 11 standard constructors, and client-side evaluation (_at == level at each breakpoint, '
       'between the neighbouring levels inside a segment for all 9 shape kinds, last level afterwards, for a symbolic '
-      'start offset) are z3 validity '
+      'start offset; an envelope derived from one whose encodings were already computed -- range / exprange copies, a new '
+      'duration -- is encoded like a fresh one; Env.pairs leaves the caller\'s points alone) are z3 validity '
       'queries over the terms computed by the real Env methods for symbolic levels, times, curvatures and evaluation '
       'time; segment counts, curve-spec kinds and node options are explored completely up to the stated bound.',
       _TB + '; exp/sin/cos/sqrt/cbrt/pow are uninterpreted (Ackermannised) with the listed axioms.',
@@ -145,7 +148,8 @@ claim('C05', 'model_checking',
       'start == parent\'s current logical time, on every interleaving chosen by the decision tree. NRT: the real '
       'ClockScheduler with routines on SystemClock, AppClock and TempoClocks created at a non-zero time (with/without '
       'beats offset; a tempo change through the setter and through etempo from the routine itself): same closed form, '
-      'executed instants non-decreasing, elapsed time ends at the last instant. '
+      'executed instants non-decreasing, elapsed time ends at the last instant; a tempo change by ANOTHER routine while '
+      'the routine is pending leaves its beats at start + sum of deltas. '
       'RT counterexamples are replayed on real threads under load, NRT ones concretely.',
       _TB + '; co-simulation fakes for threading inside sc3.base.clock; tempo from a grid; routines are played with '
       'quant 0 (TempoClock.play quantises to the next beat by default, which is documented behaviour).',
